@@ -26,4 +26,13 @@ theorem taskCollides_is_source' (sc : Scene R) (safety : Safety R) (i j : Nat) :
       (sc.aabbNear i j (SrcColl.minDistanceSrc safety i j)) (sc.distance i j) = taskCollides sc safety i j := by
   rw [minDistance_is_source]; exact taskCollidesSrc_eq sc safety i j
 
+/-- [G] WHICH pairs of bodies are checked: the task list that the CURRENT text of `detect_collisions_with_skips` builds
+(tool against every environment object; for every link the non-adjacent later links in reverse order, every environment
+object, the tool unless the link is J5 / J6, the base unless the link is J1 or was skipped; tool against base), each push
+handing over the pose and mesh of its own two indices (checked by the translator), gated by `check_required` as the CURRENT
+source defines it, is the model's `tasks` — on which `relevant pairs` of C10 and the skip-list exactness of C14 are proved -/
+theorem tasks_is_source (sc : Scene R) (own : Safety R) (skip : List Nat) (i j : Nat) :
+    SrcColl.tasksSrc sc own skip = tasks sc own skip ∧ SrcColl.checkRequiredSrc own skip i j = checkRequired own skip i j :=
+  ⟨tasksSrc_eq sc own skip, checkRequiredSrc_eq own skip i j⟩
+
 end Opw.TieColl
